@@ -147,6 +147,14 @@ func (s *c06Server) act(conn net.Conn, f C06Fault) {
 			time.Sleep(300 * time.Millisecond)
 		}
 		conn.Close()
+	case "e307", "e308":
+		// a front end that redirects the upload (same origin, another path); a redirect is not an acknowledgement, and
+		// whatever the client does about it is subject to the same rules as any other attempt
+		conn.Write([]byte("HTTP/1.1 " + f.Kind[1:] + " Redirect\r\nLocation: /moved/agent/response\r\nContent-Length: 0\r\nConnection: close\r\n\r\n"))
+		if f.KeepOpen {
+			time.Sleep(300 * time.Millisecond)
+		}
+		conn.Close()
 	case "e5xx-body-hold":
 		// an early 5xx that carries the usual short explanation as a body, from a peer that then neither reads on nor
 		// closes the connection (until the case is over): whatever the agent still has to send backs up in the socket
